@@ -796,11 +796,6 @@ class NetworkXGraphStorage:
         def add_graph(self, graph_id: str, graph: nx.Graph) -> None:
             self.lock.acquire()
             try:
-                # check this graph_id isn't already present
-                existing_graph_nodes = list(nxq.search_nodes(self.graphs, {'eq': [ABCPropertyGraph.GRAPH_ID, graph_id]}))
-                if len(existing_graph_nodes) > 0:
-                    # graph already present, delete it so we can replace
-                    self.__del_graph_nl(graph_id)
                 # relabel incoming graph nodes to integers, then merge
                 temp_graph = nx.convert_node_labels_to_integers(graph, first_label=self.start_id)
                 # set/overwrite GraphID property on all nodes
@@ -809,6 +804,11 @@ class NetworkXGraphStorage:
                         raise PropertyGraphImportException(graph_id=graph_id,
                                                            msg="Some nodes are missing NodeID property, unable to import")
                     temp_graph.nodes[n][ABCPropertyGraph.GRAPH_ID] = graph_id
+                # the incoming graph is good: if this graph_id is already present, delete that graph so we can replace it
+                # (not before - an import that fails must leave the graph it was to replace alone)
+                existing_graph_nodes = list(nxq.search_nodes(self.graphs, {'eq': [ABCPropertyGraph.GRAPH_ID, graph_id]}))
+                if len(existing_graph_nodes) > 0:
+                    self.__del_graph_nl(graph_id)
                 self.start_id = self.start_id + len(temp_graph.nodes())
                 self.graphs.add_nodes_from(temp_graph.nodes(data=True))
                 self.graphs.add_edges_from(temp_graph.edges(data=True))
